@@ -33,10 +33,10 @@ man = {
         "add_only": True,
     },
     "engines": [
-        {"name": "E1 choice-tape explorer", "path": "qmc/engine/tape.py", "serves_properties": ["C05", "C06", "C07", "C12", "C13", "C17"], "kind_free_text": "stateless model checking of the real code: deviation-bounded DFS over environment answers by prefix replay"},
-        {"name": "E2 history BFS", "path": "qmc/engine/bfs.py", "serves_properties": ["C11", "C14", "C20"], "kind_free_text": "explicit-state breadth-first search over operation histories on fresh real objects with a lock-step reference model"},
+        {"name": "E1 choice-tape explorer", "path": "qmc/engine/tape.py", "serves_properties": ["C05", "C06", "C07", "C12", "C17"], "kind_free_text": "stateless model checking of the real code: deviation-bounded DFS over environment answers (Bernoulli outcomes, shuffles, stop requests) by prefix replay"},
+        {"name": "E2 history BFS", "path": "qmc/engine/bfs.py", "serves_properties": ["C11", "C14", "C20", "C04", "C13", "C18"], "kind_free_text": "explicit-state search over operation histories on fresh real objects with a lock-step reference model (BFS with canonical-state dedup for C11; exhaustive history enumeration for C14, C20 and the history layers of C04, C13, C18)"},
         {"name": "E3 input lattice", "path": "qmc/props", "serves_properties": ["C01", "C02", "C03", "C04", "C08", "C09", "C10", "C15", "C16", "C18", "C19"], "kind_free_text": "exhaustive enumeration of finite input/configuration lattices, real code vs definition-level reference"},
-        {"name": "E4 TLC bridge", "path": "qmc/engine/tlc.py", "serves_properties": ["C12"], "kind_free_text": "TLA+ spec checked by TLC; every complete behaviour replayed on the real fit (both directions)"},
+        {"name": "E4 TLC bridge", "path": "qmc/engine/tlc.py", "serves_properties": ["C12", "C18"], "kind_free_text": "TLA+ specs (FitProtocol.tla, EarlyStop.tla) checked by TLC; every complete behaviour replayed on the real code and every implementation trace looked up in the model (two-way equivalence)"},
         {"name": "owned nondeterminism", "path": "qmc/engine/env.py", "serves_properties": ["C05", "C06", "C07", "C12", "C13", "C14", "C17", "C20"], "kind_free_text": "TorchFunctionMode seam over every random call + RNG-escape guard"},
     ],
     "checks": checks,
